@@ -6,6 +6,7 @@ Coprimality of reduce_fraction, inverse accuracy and random_data accounting are 
 import re
 
 from ast_ import *
+from bits import *
 from path import *
 
 COMP = {2: ['x', 'y'], 3: ['x', 'y', 'z'], 4: ['x', 'y', 'z', 'w']}
@@ -93,11 +94,30 @@ def run(ctx):
         body = body_of(f)
         lp = [x for x in walk(body) if x.get('kind') == 'WhileStmt']
         ok = len(lp) == 1 and N(while_parts(lp[0])[0]) in ('(0 != b)', '(b != 0)', 'b')
+        why = 'gcd is not a `while (b != 0)` loop'
         if ok:
-            st = [N(s) if s.get('kind') != 'DeclStmt' else '%s = %s' % (kids(s)[0]['name'], N(kids(kids(s)[0])[-1])) for s in stmts_of(loop_body(lp[0]))]
-            tmp = kids(stmts_of(loop_body(lp[0]))[0])[0]['name'] if stmts_of(loop_body(lp[0]))[0].get('kind') == 'DeclStmt' else '?'
-            ok = st == ['%s = (a %% b)' % tmp, '(a = b)', '(b = %s)' % tmp] and ret_expr(f) is not None and N(ret_expr(f)) == 'a'
-        ctx.check(ok, R, 'gcd<%s>|euclid' % t, f, 'while (b) { m = a % b; a = b; b = m; } return a', 'gcd is not the Euclid loop')
+            # one turn of the loop, executed abstractly from symbolic (a, b): it must produce (b, a mod b)
+            pa_, pb_ = params_of(f)[0], params_of(f)[1]
+            wi_ = width_of_type(dtype(pa_)) or (64, False)
+            Xg = BVExec(w)
+            env_ = {pa_['id']: sym_bv('a', wi_[0], wi_[1]), pb_['id']: sym_bv('b', wi_[0], wi_[1])}
+            try:
+                Xg.run([loop_body(lp[0])], env_, 0)
+                na, nb = env_[pa_['id']], env_[pb_['id']]
+                # integer promotion: the remainder is formed in int for narrow types, then narrowed back
+                cands = []
+                for W_ in sorted({wi_[0], 32, 64}):
+                    if W_ < wi_[0]:
+                        continue
+                    sa = Xg.cast(sym_bv('a', wi_[0], wi_[1]), {8: 'signed char', 16: 'short', 32: 'int', 64: 'long'}[W_] if (wi_[1] or W_ > wi_[0]) else {8: 'unsigned char', 16: 'unsigned short', 32: 'unsigned int', 64: 'unsigned long'}[W_])
+                    sb = Xg.cast(sym_bv('b', wi_[0], wi_[1]), {8: 'signed char', 16: 'short', 32: 'int', 64: 'long'}[W_] if (wi_[1] or W_ > wi_[0]) else {8: 'unsigned char', 16: 'unsigned short', 32: 'unsigned int', 64: 'unsigned long'}[W_])
+                    cands.append(u_op('mod', sa.b, sb.b, W_, commutative=False)[:wi_[0]])
+                ok = list(na.b[:wi_[0]]) == list(sym_bv('b', wi_[0], wi_[1]).b) and list(nb.b[:wi_[0]]) in cands and ret_expr(f) is not None and N(ret_expr(f)) == 'a'
+                why = 'one turn of the gcd loop does not map (a, b) to (b, a mod b), or the result is not a'
+            except Unsupported as e_:
+                ctx.undecided(R, 'gcd<%s>|euclid' % t, f, 'the gcd loop body is outside the supported statement forms (%s)' % e_)
+                continue
+        ctx.check(ok, R, 'gcd<%s>|euclid' % t, f, 'while (b) { (a, b) = (b, a mod b) } return a', why)
 
     # ---------------- R2
     R = 'C20-R2'
@@ -153,7 +173,42 @@ def run(ctx):
                 want.append(('(this.%s < other.%s)' % (c, c), 1))
                 want.append(('(other.%s < this.%s)' % (c, c), 0))
             want.append(('(this.%s < other.%s)' % (comps[-1], comps[-1]), 'ret'))
-            ctx.check(seq == want, R, lab0 + '|operator<|lexicographic', lt, 'lexicographic ladder over %s' % comps, 'operator< is not the strict lexicographic order (it must be a strict weak order consistent with ==): %s' % seq)
+            # operator< touches the components only through comparisons, so it is decided exhaustively over
+            # the 3^n orderings of the component pairs (each pair <, = or >): the result must be the
+            # lexicographic one.  Any shape (ladder, shared helper, loop over at(i)) is accepted.
+            import itertools
+            from peval import PEval, Vec, Undecided, Fault
+            PEo = PEval([w])
+            bad_o = None
+            undec = None
+            for combo in itertools.product('<=>', repeat=len(comps)):
+                PEo.ordering = dict(enumerate(combo))
+                frame_this = Vec('a', list(comps))
+                try:
+                    frame = {params_of(lt)[0]['id']: Vec('b', list(comps)), '__this__': frame_this}
+                    try:
+                        PEo.run([body_of(lt)], frame, 1)
+                        got = None
+                    except Exception as e_:
+                        if e_.__class__.__name__ != '_Return':
+                            raise
+                        got = e_.v
+                except Undecided as e_:
+                    undec = str(e_)
+                    break
+                except Fault as e_:
+                    bad_o = (combo, 'faults: %s' % e_)
+                    break
+                first = next((o for o in combo if o != '='), '=')
+                want_o = 1 if first == '<' else 0
+                if got != want_o:
+                    bad_o = (combo, 'returns %s' % got)
+                    break
+            if undec is not None:
+                ctx.undecided(R, lab0 + '|operator<|lexicographic', lt, 'operator< could not be folded over the component orderings (%s)' % undec)
+            else:
+                ctx.check(bad_o is None, R, lab0 + '|operator<|lexicographic', lt, 'lexicographic over %s on all %d component orderings' % (comps, 3 ** len(comps)),
+                          'operator< is not the strict lexicographic order (it must be a strict weak order consistent with ==): with components %s it %s' % (', '.join('%s: this %s other' % (c_, o_) for c_, o_ in zip(comps, bad_o[0])) if bad_o else '', bad_o[1] if bad_o else ''))
         for nm, a_, b_ in (('dot', 'this', 'other'), ('norm2', 'this', 'this')):
             f = ms.get(nm, [None])[0]
             if f is not None:
@@ -326,12 +381,16 @@ def run(ctx):
         if okl:
             n_ = nf(call_args(lcopy[0])[2])
             srcn = nf(call_args(lcopy[0])[1])
-            subs = [nf(x['inner'][1]) for x in walk(lp) if x.get('kind') == 'CompoundAssignOperator' and x.get('opcode') == '-=' and (ref_decl(x['inner'][0]) or {}).get('id') == params_of(rdf)[1]['id']]
+            from guard import subst_locals
+            cnt_ids = {params_of(rdf)[1]['id']} | {v_['id'] for v_ in walk(rb) if v_.get('kind') == 'VarDecl' and kids(v_) and nf(kids(v_)[-1]) == params_of(rdf)[1]['name']}
+            cnt_names = {params_of(rdf)[1]['name']} | {v_['name'] for v_ in walk(rb) if v_.get('kind') == 'VarDecl' and kids(v_) and nf(kids(v_)[-1]) == params_of(rdf)[1]['name']}
+            n_ = subst_locals(n_, lcopy[0])
+            subs = [subst_locals(nf(x['inner'][1]), x) for x in walk(lp) if x.get('kind') == 'CompoundAssignOperator' and x.get('opcode') == '-=' and (ref_decl(x['inner'][0]) or {}).get('id') in cnt_ids]
             adva = []
             for a in advs:
                 if any(a is y for y in walk(lp)):
                     if a.get('opcode') == '+=':
-                        adva.append(nf(a['inner'][1]))
+                        adva.append(subst_locals(nf(a['inner'][1]), a))
                     else:
                         e = strip(a['inner'][1])
                         while e.get('kind') in ('CStyleCastExpr', 'CXXReinterpretCastExpr', 'CXXStaticCastExpr', 'ParenExpr') and kids(e):
@@ -339,7 +398,7 @@ def run(ctx):
                         adva.append(nf(e['inner'][1]) if e.get('kind') == 'BinaryOperator' and e.get('opcode') == '+' else '?')
             refill = [x for x in walk(lp) if x.get('kind') == 'CXXOperatorCallExpr' and call_name(x) == 'operator=' and nf(kids(x)[1]) == srcn.replace('.data()', '')]
             order = bool(refill) and all(y.get('_off', 0) < refill[0].get('_off', 0) for y in [lcopy[0]] + [a for a in advs if any(a is z for z in walk(lp))])
-            okl = subs == [n_] and adva == [n_] and order and nf(while_parts(lp)[0]) == '(%s < bytes)' % n_
+            okl = subs == [n_] and adva == [n_] and order and nf(while_parts(lp)[0]) in {'(%s < %s)' % (n_, c_) for c_ in cnt_names}
             why = 'loop copies %s bytes, subtracts %s, advances by %s, refill-after-accounting=%s, condition %s' % (n_, subs, adva, order, nf(while_parts(lp)[0]))
         ctx.check(okl, R, 'random_data|refill-accounting', lp, 'each turn copies the whole pool, subtracts and advances by the same amount, then refills', 'the refill loop accounting is inconsistent: ' + why)
     tail = [c for c in copies if not any(c is y for lp in loops for y in walk(lp))]
@@ -348,7 +407,13 @@ def run(ctx):
     if okt:
         a = call_args(tail[0])
         rs = [c for c in walk(rb) if c.get('kind') == 'CXXMemberCallExpr' and call_name(c) == 'resize' and c.get('_off', 0) > tail[0].get('_off', 0)]
-        okt = nf(a[2]) == 'bytes' and nf(a[1]) in ('(-bytes + buffer.data() + buffer.size())', '((buffer.data() + buffer.size()) - bytes)', '(buffer.data() + (buffer.size() - bytes))') and len(rs) == 1 and nf(call_args(rs[0])[0]) == '(buffer.size() - bytes)'
+        from guard import subst_locals as _sl
+        cnt_names2 = {params_of(rdf)[1]['name']} | {v_['name'] for v_ in walk(rb) if v_.get('kind') == 'VarDecl' and kids(v_) and nf(kids(v_)[-1]) == params_of(rdf)[1]['name']}
+        okt = False
+        for cn_ in cnt_names2:
+            srcs_ = {renorm(x_) for x_ in ('(buffer.data() + buffer.size() + -%s)' % cn_, '((buffer.data() + buffer.size()) - %s)' % cn_, '(buffer.data() + (buffer.size() - %s))' % cn_, '(-%s + buffer.data() + buffer.size())' % cn_)}
+            if nf(a[2]) == cn_ and renorm(_sl(nf(a[1]), a[1])) in srcs_ and len(rs) == 1 and renorm(_sl(nf(call_args(rs[0])[0]), rs[0])) == renorm('(buffer.size() - %s)' % cn_):
+                okt = True
         why = 'tail copies %s bytes from %s, then resize(%s)' % (nf(a[2]), nf(a[1]), nf(call_args(rs[0])[0]) if rs else '?')
     ctx.check(okt, R, 'random_data|tail', tail[0] if tail else rdf, 'the remaining bytes come from the end of the pool and are removed from it', 'the final copy does not take exactly the remaining bytes from the pool and drop them: ' + why)
     ctx.note('Vector classes instantiated for int64_t (all members) and double (cross, dot, <); Matrix4 for int64_t and double. Not decided: reduce_fraction coprimality, inverse accuracy.')
